@@ -722,6 +722,11 @@ def main():
         info['inventory'] = inventory.generate(REPO, OUT, write_if_changed)
     except ImportError:
         pass
+    try:
+        import ctranslate
+        info['c_source'] = ctranslate.generate(REPO, OUT, write_if_changed)
+    except ImportError:
+        pass
     print(json.dumps(info))
 
 if __name__ == '__main__':
